@@ -227,6 +227,36 @@ def _reattach(ctx, P):
             ctx.report("R19.2", fi, inst, bad)
         else:
             ctx.ok("R19.2", inst, "grid coordinates that fit the result" + ("" if keep else ", non-dimension coordinates dropped"))
+    _reattach_every_result(ctx, P, fi, models, ds_coords, res_dims, want_assigned)
+
+
+def _reattach_every_result(ctx, P, fi, models, ds_coords, res_dims, want_assigned):
+    """R19.2 for a grid ufunc with several outputs: every result comes back, in order, each with the grid's coordinates."""
+    inst = "_reattach_coords, two results"
+    ev = Evaluator(P, method_models=models(), attr_models={("DataArray", "coords"): lambda ev, o, n: dict(o.attrs.get("coords", {}))},
+                   models={"warnings.warn": lambda ev, a, k, n: None})
+
+    def make():
+        g = make_grid(("AX", "AY"), ds=Obj("Dataset", "grid_ds", (), {"coords": dict(ds_coords)}))
+        return dict(results=[make_da("res1", res_dims, coords={}), make_da("res2", res_dims, coords={})], grid=g, boundary_width={"AX": (1, 0)}, keep_coords=True)
+
+    try:
+        outs = ev.run_paths(fi, make)
+    except Unmodelled as e:
+        ctx.unknown("R19.2", inst, str(e))
+        return
+    bad = None
+    for o in outs:
+        if o.kind != "return" or not isinstance(o.value, (list, tuple)):
+            bad = f"{o.kind} {o.value!r}"
+        elif [getattr(v, "name", None) for v in o.value] != ["res1", "res2"]:
+            bad = f"{[getattr(v, 'name', None) for v in o.value]} come back for the results [res1, res2]: every output of the ufunc must be labelled and returned, in order"
+        elif any(set(v.attrs.get("coords", {})) != want_assigned for v in o.value):
+            bad = "not every result carries the grid's coordinates"
+    if bad:
+        ctx.report("R19.2", fi, inst, bad)
+    else:
+        ctx.ok("R19.2", inst, "both labelled, in order")
 
 
 def _strip(ctx, P):
